@@ -203,7 +203,8 @@ pub(crate) fn snap<A: LoadableAsset + SeekableAsset + AssetFp>(t: &mut Tap<A>, w
     Snap {
         state: t.state,
         prev: t.prev_state,
-        level: t.curr_bit,
+        // the level as the ULA port sees it (TapeImpl::current_bit), not the private field
+        level: t.current_bit(),
         byte: t.curr_byte,
         delay: t.delay,
         pos: t.asset.fp(),
